@@ -122,7 +122,9 @@ pub(crate) fn sanitize_namespace(key: &str) -> String {
         })
         .collect();
 
-    if sanitized.trim_matches('_').is_empty() {
+    // "." and ".." are kept by the character filter but are not directory names: pushed onto
+    // the data dir they denote the data dir itself and its parent.
+    if sanitized.trim_matches('_').is_empty() || sanitized == "." || sanitized == ".." {
         sanitized = format!("ns_{:x}", checksum64(key.as_bytes()));
     }
     sanitized
